@@ -56,17 +56,7 @@ Theorem unauthenticated_inert : forall w n now st,
   (forall r, unauthenticated w st (br_cred r) -> refused_inert (init_back_auth w n now r) st (cf_ciba_enabled (w_cfg w))) /\
   (forall r, unauthenticated w st (q_cred r) -> refused_inert (introspect w now r) st (cf_introspection (w_cfg w))) /\
   (forall r, unauthenticated w st (q_cred r) -> refused_inert (revoke w now r) st (cf_revocation (w_cfg w))).
-Proof.
-  intros w n now st. repeat split; intros r H.
-  - exact (inert_code w n now r st H).
-  - exact (inert_refresh w n now r st H).
-  - exact (inert_cc w n now r st H).
-  - exact (inert_ciba w n now r st H).
-  - exact (inert_par w n now r st H).
-  - exact (inert_bc w n now r st H).
-  - exact (inert_introspect w now r st H).
-  - exact (inert_revoke w now r st H).
-Qed.
+Proof. exact unauthenticated_inert_l. Qed.
 Print Assumptions unauthenticated_inert.
 
 (* refused_inert in terms of the sequential interpreter the other properties use *)
@@ -83,31 +73,16 @@ Theorem authn_none_is_unauthenticated : forall g x cls rq w st,
 Proof. exact authn_none_unauthenticated. Qed.
 Print Assumptions authn_none_is_unauthenticated.
 
-(* ---- the hypotheses are satisfiable ---- *)
-Definition ex_cfg : acfg := mkACfg [ES256] [HS256] 600 0 true true.
-Definition ex_key : jwk := mkJwk 11 (Some ES256) 101 KtEC256 true 0.
-Definition ex_client : aclient :=
-  mkAClient 1 MPrivateKeyJWT MUnset MUnset None None None None 0 false (JwksByValue [ex_key]) "" "" IpUnset.
-Definition ex_assertion : assertion :=
-  mkAssertion (SPriv 101) ES256 11 (Some 1) 1 [AudTokenURL] (Some 60%Z) None None true.
-Definition ex_request : request := mkRequest 0 0 None (AJws ex_assertion) true None true None.
-
+(* ---- the hypotheses are satisfiable (ex_cfg, ex_client, ex_request ... are defined in Proofs/C01Proofs.v) ---- *)
 Example authn_sound_nonvacuous :
   authenticated ex_cfg CtxToken [ex_client] ex_request = Some ex_client /\ ca_id ex_client <> 0.
-Proof. split; [vm_compute; reflexivity | discriminate]. Qed.
+Proof. exact authn_sound_nonvacuous_l. Qed.
 
 Example authn_complete_nonvacuous :
   registered [ex_client] ex_client /\ valid_credential ex_cfg CtxToken ex_client ex_request /\
   unambiguous ex_client ex_request.
-Proof.
-  split; [reflexivity|]. split; [apply valid_credential_decided; vm_compute; reflexivity|].
-  intros ks H. injection H as <-. split.
-  - intros a j j' _ [<-|[]] [<-|[]] _ _. reflexivity.
-  - intros ct j j' _ [<-|[]] [<-|[]] _ _. reflexivity.
-Qed.
+Proof. exact authn_complete_nonvacuous_l. Qed.
 
-(* a forged assertion (signed by a key that is not registered) is refused, and the request then is
-   an unauthenticated one for the handlers *)
 Example unauthenticated_nonvacuous :
   let rq := mkRequest 0 0 None (AJws (mkAssertion (SPriv 999) ES256 11 (Some 1) 1 [AudTokenURL] (Some 60%Z) None None true))
               true None true None in
@@ -116,11 +91,5 @@ Example unauthenticated_nonvacuous :
   authenticated ex_cfg CtxToken [ex_client] rq = None /\
   agrees CtxToken [ex_client] w st /\
   unauthenticated w st (cred_of ex_cfg CtxToken [ex_client] rq).
-Proof.
-  intros rq w st. split; [vm_compute; reflexivity|]. split.
-  - intro i. destruct (N.eqb 1 i) eqn:E.
-    + apply N.eqb_eq in E. subst i. vm_compute. reflexivity.
-    + unfold lookup, find_aclient, find_client, ideq, w, st. cbn [w_static st_clients find c_id ca_id ex_client].
-      rewrite E. exact I.
-  - right. right. eexists. split; [vm_compute; reflexivity|]. split; reflexivity.
-Qed.
+Proof. exact unauthenticated_nonvacuous_l. Qed.
+
